@@ -472,3 +472,82 @@ def inline_property(repo: Repo, cls_rel: str, cls_name: str, prop: str, recv: st
     if len(body) != 1 or not isinstance(body[0], ast.Return) or body[0].value is None:
         return None
     return substitute(body[0].value, {"self": ast.parse(recv, mode="eval").body})
+
+
+def partial_eval(folder: Folder, func_node: ast.FunctionDef, mod, cls, env: Dict[str, object], local_funcs: Optional[Dict[str, ast.FunctionDef]] = None,
+                 depth: int = 0):
+    """Specialise a small pure function for concrete arguments by folding: ('return', value) | ('raise', name) |
+    ('unknown', why).  Handles if/elif/else, assignments to names, return, raise and calls of sibling local functions.
+    This is constant folding with bound parameters over the function's own syntax -- nothing of the repository runs."""
+    if depth > 6:
+        return ("unknown", "recursion")
+    env = dict(env)
+    local_funcs = local_funcs or {}
+
+    class _Inline(ast.NodeTransformer):
+        def visit_Call(self, node):
+            self.generic_visit(node)
+            if isinstance(node.func, ast.Name) and node.func.id in local_funcs and not node.keywords:
+                callee = local_funcs[node.func.id]
+                sc_ = Scope(mod, cls, dict(env))
+                try:
+                    args = [folder.fold(a, sc_) for a in node.args]
+                except Unfoldable:
+                    return node
+                params = [a.arg for a in callee.args.args]
+                r = partial_eval(folder, callee, mod, cls, dict(zip(params, args)), local_funcs, depth + 1)
+                if r[0] == "return" and isinstance(r[1], (int, str, bool, float, type(None), bytes)):
+                    return ast.Constant(value=r[1])
+            return node
+
+    def fold(e):
+        e2 = _Inline().visit(copy.deepcopy(e))
+        ast.fix_missing_locations(e2)
+        return folder.fold(e2, Scope(mod, cls, env))
+
+    def run(stmts):
+        for st in stmts:
+            if isinstance(st, ast.Expr) and isinstance(st.value, ast.Constant):
+                continue
+            if isinstance(st, ast.If):
+                try:
+                    t = fold(st.test)
+                except Unfoldable as e:
+                    return ("unknown", f"test `{src(st.test)}`: {e}")
+                r = run(st.body if t else st.orelse)
+                if r is not None:
+                    return r
+            elif isinstance(st, ast.Return):
+                if st.value is None:
+                    return ("return", None)
+                try:
+                    return ("return", fold(st.value))
+                except Unfoldable as e:
+                    return ("unknown", f"return `{src(st.value)}`: {e}")
+                except KeyError as e:
+                    return ("raise", "KeyError")
+            elif isinstance(st, ast.Raise):
+                f_ = st.exc.func if isinstance(st.exc, ast.Call) else st.exc
+                return ("raise", dotted(f_) if f_ is not None else "reraise")
+            elif isinstance(st, ast.Assign) and len(st.targets) == 1 and isinstance(st.targets[0], ast.Name):
+                try:
+                    env[st.targets[0].id] = fold(st.value)
+                except Unfoldable as e:
+                    return ("unknown", f"`{src(st)}`: {e}")
+            elif isinstance(st, ast.Try):
+                r = run(st.body)
+                if r is not None and r[0] == "raise":
+                    for h in st.handlers:
+                        names = [dotted(x) for x in (h.type.elts if isinstance(h.type, ast.Tuple) else [h.type])] if h.type is not None else [r[1]]
+                        if r[1] in names or "Exception" in names:
+                            r = run(h.body)
+                            break
+                if r is not None:
+                    return r
+            elif isinstance(st, ast.Pass):
+                continue
+            else:
+                return ("unknown", f"statement `{src(st)[:40]}`")
+        return None
+    r = run(func_node.body)
+    return r if r is not None else ("return", None)
